@@ -1,1 +1,225 @@
-/- C12 — property theorems (stub: not built yet) -/
+import Rivaas.Lemmas.PhasesSim
+import Rivaas.Lemmas.ReverseRT
+/-
+C12 — Configuration and serving are separate phases.
+
+Quantifiers: every list of goroutines (requests, Freeze, Warmup, registrations through router / group /
+mount / version router, WhereInt, SetName, URLFor) and **every schedule** — a list of goroutine indices,
+each entry releasing that goroutine until its next yield point. `sync.Once` is modelled by its contract.
+Helper lemmas: `Lemmas/PhasesCore.lean` (invariant of the shared state), `Lemmas/PhasesSim.lean`
+(simulation against the trace monitor), `Lemmas/ReverseRT.lean`.
+-/
+namespace Rivaas.C12
+open Rivaas Rivaas.Phases Rivaas.Phases.Spec
+
+/-! ### the shared state, for every sequence of atomic operations -/
+
+/-- The invariant holds after every sequence of operations (any interleaving of any number of
+    goroutines is such a sequence). -/
+theorem inv_all_schedules (ops : List Op) : Inv (ops.foldl Core.step Core.init) :=
+  lemma_inv_run ops Core.init lemma_inv_init
+
+/-- **No request observes a partially registered table.** Once `freezeOnce` is done — and a request
+    consults the tree only after its `Freeze()` returned — a lookup answers exactly as the set of all
+    accepted registrations and accepted constraints says, whatever the interleaving was: routes registered
+    before `Warmup()`, between `Warmup()` and the freeze, while `doWarmup` was half-way. -/
+theorem requests_see_full_table (ops : List Op) (t : RouteId) (valInt : Bool)
+    (hd : (ops.foldl Core.step Core.init).fpc = .done) :
+    lookup (ops.foldl Core.step Core.init) t valInt =
+      (if (ops.foldl Core.step Core.init).objs.contains t &&
+          (!(ops.foldl Core.step Core.init).cons.contains t || valInt) then some t else none) :=
+  lemma_lookup_done _ (inv_all_schedules ops) hd t valInt
+
+/-- **A late mutation is rejected and changes nothing**: once the flags are set, a registration
+    (through any registrar), a constraint change and a naming attempt leave the whole shared state as it
+    was. -/
+theorem late_mutation_rejected (c : Core) (h : c.frozen = true) (r : RouteId) :
+    c.step (.register r) = c ∧ c.step (.whereInt r) = c ∧ c.step (.setName r) = c ∧
+    (¬ c.objs.contains r → registerRes c r = .rejected) ∧
+    (c.objs.contains r → mutateRes c r = .rejected) := by
+  refine ⟨?_, ?_, ?_, ?_, ?_⟩
+  · simp only [Core.step, h, Bool.or_true, ↓reduceIte]; split <;> rfl
+  · simp only [Core.step, h, ↓reduceIte]; split <;> rfl
+  · simp only [Core.step, h, ↓reduceIte]; split <;> rfl
+  · intro hn; simp [registerRes, h, hn]
+  · intro hn; simp [mutateRes, h, hn]
+
+/-- the freeze is for ever: no operation clears the flag -/
+theorem frozen_forever (c : Core) (op : Op) (h : c.frozen = true) : (c.step op).frozen = true := by
+  by_cases he : op = .enterFreeze
+  · subst he
+    simp only [Core.step]
+    split
+    · rfl
+    · exact h
+  · rw [lemma_frozen_step c op he]; exact h
+
+/-- **Freeze is idempotent**: once `freezeOnce` is done, every operation of the two `Once` bodies is a
+    no-op on the shared state (a second `Freeze()` or `Warmup()` does not even enter them). -/
+theorem freeze_idempotent (c : Core) (h : Inv c) (hd : c.fpc = .done) (op : Op) (hb : op.isBody = true) :
+    c.step op = c := by
+  have hw : c.wpc = .done := h.tail_done (Or.inr hd)
+  cases op with
+  | enterFreeze => simp [Core.step, hd]
+  | freezeCallWarmup => simp [Core.step, hd]
+  | enterWarmup => simp [Core.step, hw]
+  | warmupStep => simp [Core.step, hw]
+  | freezeFinish => simp [Core.step, hd]
+  | register r => simp [Op.isBody] at hb
+  | whereInt r => simp [Op.isBody] at hb
+  | setName r => simp [Op.isBody] at hb
+
+/-- **Warmup is idempotent**: once `warmupOnce` is done its body cannot be entered or advanced again -/
+theorem warmup_idempotent (c : Core) (hw : c.wpc = .done) :
+    c.step .enterWarmup = c ∧ c.step .warmupStep = c := by
+  constructor <;> simp [Core.step, hw]
+
+/-! ### goroutines and schedules -/
+
+/-- **For every schedule** the observable trace of the model — where each released goroutine is
+    afterwards, what it reported — is accepted by the oracle: mutations are accepted exactly before
+    serving began and rejected afterwards, every request answers as the accepted registrations and
+    constraints say, `URLFor` succeeds exactly for accepted names once serving began. -/
+theorem trace_accepted (kinds : List Kind) (sched : List Nat) (hv : ∀ i ∈ sched, i < kinds.length) :
+    ∃ m, monitor kinds Mon.init (run kinds sched).2 = some m ∧ Rel (run kinds sched).1 m := by
+  obtain ⟨m, h1, h2, _⟩ := lemma_run_rel kinds sched (St.init kinds.length) Mon.init
+    (lemma_rel_init _) (by simp [St.init]) hv
+  exact ⟨m, h1, h2⟩
+
+/-- **C12 (phases).** For every schedule after which every goroutine has finished, the whole observation
+    of the model — trace, final positions, probe requests for every route id — satisfies the oracle. -/
+theorem run_meets_spec (kinds : List Kind) (sched ids : List Nat) (hv : ∀ i ∈ sched, i < kinds.length)
+    (hfin : ∀ st ∈ (run kinds sched).1.status, st = .finished) :
+    specOK kinds ids (run kinds sched).2 ((run kinds sched).1.status.map (vis (run kinds sched).1))
+      (probes (run kinds sched).1.core ids) = true := by
+  obtain ⟨m, h1, h2⟩ := trace_accepted kinds sched hv
+  unfold specOK
+  rw [h1]
+  unfold finalOK
+  rw [lemma_probes _ m h2 ids]
+  simp only [beq_self_eq_true, Bool.and_true, List.all_eq_true, List.mem_map, decide_eq_true_eq]
+  rintro v ⟨st, hst, rfl⟩
+  rw [hfin st hst]
+  rfl
+
+/-! ### reverse routing -/
+
+open Rivaas.Reverse in
+/-- **URLFor round trip (parameter routes).** For a pattern with parameters and values that are valid
+    single path segments (non-empty, no `/`), the path the router sees when the URL is requested matches
+    the route and binds every parameter to its value, left to right. -/
+theorem urlfor_roundtrip (pattern : Bytes) (vals : Vals)
+    (hp : (parseReversePattern pattern).any Seg.isParam = true)
+    (hv : ∀ n, Seg.param n ∈ parseReversePattern pattern →
+      ∃ v, valOf vals n = some v ∧ v.1 ≠ [] ∧ '/' ∉ v.1) :
+    ∃ path, seenPath pattern vals = some path ∧
+      matchRoute pattern path = some (boundParams vals (parseReversePattern pattern)) := by
+  obtain ⟨parts, h1, h2, h3, h4⟩ := lemma_match_render vals (parseReversePattern pattern)
+    (fun n hn => let ⟨v, hvn, _⟩ := hv n hn; ⟨v, hvn⟩)
+  have hne : parts ≠ [] := by
+    intro he
+    rw [he] at h3
+    have : parseReversePattern pattern = [] := List.length_eq_zero_iff.1 h3.symm
+    rw [this] at hp
+    simp at hp
+  have hgood : ∀ x ∈ parts, x ≠ [] ∧ '/' ∉ x := by
+    intro x hx
+    rcases h4 x hx with ⟨t, ht, rfl⟩ | ⟨n, v, hn, hvn, rfl⟩
+    · exact lemma_parse_static pattern x ht
+    · obtain ⟨v', hv', hne', hs'⟩ := hv n hn
+      rw [hvn] at hv'
+      cases hv'
+      exact ⟨hne', hs'⟩
+  refine ⟨'/' :: joinSlash parts, ?_, ?_⟩
+  · simp [seenPath, buildWith, hp, h1]
+  · have hsplit := lemma_split_join parts hne (fun x hx => (hgood x hx).2)
+    have hjoin_ne : joinSlash parts ≠ [] := by
+      intro he
+      rw [he] at hsplit
+      simp only [splitSlash] at hsplit
+      obtain ⟨x, rest, hxr⟩ := List.exists_cons_of_ne_nil hne
+      rw [hxr] at hsplit
+      have : x = [] := by
+        have := List.cons.inj hsplit
+        exact this.1.symm
+      exact (hgood x (by rw [hxr]; simp)).1 this
+    unfold matchRoute
+    simp only [hp, Bool.not_true, Bool.false_eq_true, if_false]
+    have h1' : ('/' :: joinSlash parts = ['/']) = False := by
+      simp [hjoin_ne]
+    simp only [h1', decide_false, Bool.false_or, List.cons_ne_nil, if_false, reqSegments, List.head?_cons,
+      if_true, List.drop_succ_cons, List.drop_zero, hsplit]
+    have hlast : parts.getLast? ≠ some [] := by
+      intro hl
+      exact (hgood [] (lemma_getLast_mem parts [] hl)).1 rfl
+    simp only [hlast, if_false]
+    exact h2
+
+open Rivaas.Reverse in
+/-- **URLFor round trip (routes without parameters).** The route reverses to its own path, which it
+    matches (after the K12c repair; before it `"/docs/"` reversed to `"/docs"`). -/
+theorem urlfor_static (pattern : Bytes) (vals : Vals)
+    (hp : (parseReversePattern pattern).any Seg.isParam = false) :
+    buildURL pattern vals = some pattern ∧ seenPath pattern vals = some pattern ∧
+    matchRoute pattern pattern = some [] := by
+  refine ⟨by simp [buildURL, buildWith, hp], by simp [seenPath, buildWith, hp], ?_⟩
+  unfold matchRoute
+  simp only [hp, Bool.not_false, if_true]
+  split
+  · rename_i h; simp [h]
+  · simp
+
+/-! ### the code as shipped: witnesses of K12, K12b, K12c (replayed on the implementation, corpus/C12) -/
+
+def servedOps : List Op :=
+  [.register 1, .enterFreeze, .freezeCallWarmup, .warmupStep, .warmupStep, .warmupStep, .freezeFinish]
+
+/-- K12: `WhereInt` on a served route after the freeze changed routing (200 → 404), no panic -/
+theorem where_after_freeze_asis :
+    let c := servedOps.foldl (Core.stepAsIs fun _ => false) Core.init
+    lookup c 1 false = some 1 ∧ lookup (Core.stepAsIs (fun _ => false) c (.whereInt 1)) 1 false = none ∧
+    lookup (c.step (.whereInt 1)) 1 false = some 1 := by decide
+
+/-- K12b: a route registered through a `VersionRouter` after the freeze became routable -/
+theorem late_version_route_asis :
+    let c := servedOps.foldl (Core.stepAsIs fun r => r = 2) Core.init
+    lookup c 2 true = none ∧ lookup (Core.stepAsIs (fun r => r = 2) c (.register 2)) 2 true = some 2 ∧
+    lookup (c.step (.register 2)) 2 true = none := by decide
+
+open Rivaas.Reverse in
+/-- K12c: a static route with a trailing slash reversed to a path it does not match -/
+theorem urlfor_trailing_slash_asis :
+    buildURLAsIs vb!"/api/" [] = some vb!"/api" ∧ matchRoute vb!"/api/" vb!"/api" = none ∧
+    buildURL vb!"/api/" [] = some vb!"/api/" ∧ matchRoute vb!"/api/" vb!"/api/" = some [] := by decide
+
+/-! ### non-vacuity -/
+
+/-- two requests racing to freeze, a late registration, a late constraint, Warmup and Freeze from other
+    goroutines, URLFor: a schedule with context switches inside both `Once` bodies -/
+def kindsEx : List Kind :=
+  [.register 1, .setName 1, .request 1 false, .request 1 true, .warmup, .freeze, .register 2, .whereInt 1,
+   .urlFor 1, .request 2 true]
+
+def schedEx : List Nat :=
+  [0, 1, 2, 3, 2, 3, 2, 4, 6, 7, 8, 2, 5, 2, 3, 2, 2, 3, 3, 9, 9, 9, 4, 5, 2]
+
+example : ∀ i ∈ schedEx, i < kindsEx.length := by decide
+example : ∀ st ∈ (run kindsEx schedEx).1.status, st = .finished := by decide
+
+/-- the late registration and the late constraint are rejected, both racing requests are served -/
+example : (run kindsEx schedEx).2.filterMap (fun e => match e.out with | .none => none | o => some (e.actor, o)) =
+    [(0, .mut .accepted), (1, .mut .accepted), (6, .mut .rejected), (7, .mut .rejected), (8, .url .ok),
+     (3, .hit (some 1)), (9, .hit none), (2, .hit (some 1))] := by decide
+
+example : specOK kindsEx [1, 2] (run kindsEx schedEx).2
+    ((run kindsEx schedEx).1.status.map (vis (run kindsEx schedEx).1)) (probes (run kindsEx schedEx).1.core [1, 2]) = true :=
+  run_meets_spec kindsEx schedEx [1, 2] (by decide) (by decide)
+
+open Rivaas.Reverse in
+example : (parseReversePattern vb!"/users/:id/posts/:pid").any Seg.isParam = true ∧
+    seenPath vb!"/users/:id/posts/:pid" [(vb!"id", vb!"a b", vb!"a%20b"), (vb!"pid", vb!"7", vb!"7")] =
+      some vb!"/users/a b/posts/7" ∧
+    matchRoute vb!"/users/:id/posts/:pid" vb!"/users/a b/posts/7" = some [(vb!"id", vb!"a b"), (vb!"pid", vb!"7")] := by
+  decide
+
+end Rivaas.C12
